@@ -83,10 +83,13 @@ type Network struct {
 	Log func(format string, args ...any)
 	// evSeq orders delegate invocations; leaveAt[o][l] / mergeAt[o][l] are the sequence numbers of
 	// the last NotifyLeave(l) and the last MergeRemoteState(state of l) that completed at node o.
-	evSeq   int
-	Logf    func(format string, args ...any) // optional trace hook
-	leaveAt map[string]map[string]int
-	mergeAt map[string]map[string]int
+	evSeq int
+	Logf  func(format string, args ...any) // optional trace hook
+	// DeadProcess, when set, tells whether the calling goroutine belongs to a process the world
+	// has crashed (the world knows its tasks' lineage).
+	DeadProcess func() bool
+	leaveAt     map[string]map[string]int
+	mergeAt     map[string]map[string]int
 }
 
 func (n *Network) note(tab *map[string]map[string]int, at, about string) {
@@ -140,6 +143,10 @@ type Memberlist struct {
 	self    *Node
 	members map[string]*Node // this node's view (includes itself)
 	left    bool
+	// deadSeen: incarnations (node objects) this observer has been told are gone. memberlist
+	// orders alive/dead notices by incarnation: an "alive" for an incarnation known dead is ignored,
+	// a new incarnation of the same name overrides the old one.
+	deadSeen map[*Node]bool
 	// evMu serialises this node's event-delegate notifications: memberlist invokes NotifyJoin /
 	// NotifyLeave / NotifyUpdate one at a time (under its node lock), in the order of the
 	// state changes
@@ -154,16 +161,38 @@ func Create(cfg *Config) (*Memberlist, error) {
 	if n == nil {
 		return nil, errors.New("fakeml: no network installed")
 	}
+	if n.DeadProcess != nil && n.DeadProcess() {
+		// a goroutine of a process that has crashed in the meantime: it binds nothing any more
+		return nil, errors.New("fakeml: the calling process is gone")
+	}
 	n.mu.Lock()
 	defer n.mu.Unlock()
-	if _, dup := n.nodes[cfg.Name]; dup {
-		return nil, fmt.Errorf("fakeml: duplicate node %q", cfg.Name)
+	if old, dup := n.nodes[cfg.Name]; dup {
+		if !old.crashed {
+			return nil, fmt.Errorf("fakeml: duplicate node %q", cfg.Name)
+		}
+		// the process comes back under its old name (a restart after a crash): a new incarnation.
+		// Notices about the old incarnation that are still under way are void (memberlist orders
+		// them by incarnation number and the new incarnation refutes a stale "dead").
+		kept := n.pending[:0]
+		for _, p := range n.pending {
+			if p.Node != nil && p.Node.Name == cfg.Name {
+				continue
+			}
+			kept = append(kept, p)
+		}
+		n.pending = kept
+		for _, tab := range []map[string]map[string]int{n.leaveAt, n.mergeAt} {
+			for _, m := range tab {
+				delete(m, cfg.Name)
+			}
+		}
 	}
 	self := &Node{Name: cfg.Name, Addr: net.ParseIP(cfg.BindAddr), Port: uint16(cfg.BindPort)}
 	if self.Addr == nil {
 		self.Addr = net.IPv4(127, 0, 0, 1)
 	}
-	m := &Memberlist{net: n, cfg: cfg, self: self, members: map[string]*Node{cfg.Name: self}}
+	m := &Memberlist{net: n, cfg: cfg, self: self, members: map[string]*Node{cfg.Name: self}, deadSeen: map[*Node]bool{}}
 	n.nodes[cfg.Name] = m
 	n.byAddr[fmt.Sprintf("%s:%d", cfg.BindAddr, cfg.BindPort)] = m
 	return m, nil
@@ -219,7 +248,16 @@ func (m *Memberlist) Join(addrs []string) (int, error) {
 		sort.Strings(pnames)
 		for _, name := range pnames {
 			nd := peer.members[name]
-			if _, known := m.members[name]; !known {
+			// a peer that has not noticed a failure yet still lists the dead incarnation; a node that
+			// has been told it is gone does not take it back from there, and nobody takes an old
+			// incarnation for a name whose current incarnation is another
+			if m.deadSeen[nd] {
+				continue
+			}
+			if cur := m.net.nodes[name]; cur != nil && cur.self != nd {
+				continue
+			}
+			if have, known := m.members[name]; !known || have != nd {
 				m.members[name] = nd
 				m.net.enqueue(&Pending{Kind: "join", To: m.cfg.Name, Node: nd})
 			}
@@ -231,7 +269,12 @@ func (m *Memberlist) Join(addrs []string) (int, error) {
 			if _, inCluster := peer.members[other.cfg.Name]; !inCluster {
 				continue
 			}
-			if _, known := other.members[m.cfg.Name]; !known {
+			have, known := other.members[m.cfg.Name]
+			known = known && have == m.self // an older incarnation under the same name does not count
+			if m.net.Logf != nil {
+				m.net.Logf("fakeml: join of %s via %s: %s knows this incarnation already: %v", m.cfg.Name, peer.cfg.Name, other.cfg.Name, known)
+			}
+			if !known {
 				other.members[m.cfg.Name] = m.self
 				m.net.enqueue(&Pending{Kind: "join", To: other.cfg.Name, Node: m.self})
 			}
@@ -385,10 +428,7 @@ func (n *Network) Deliver(seq int, keep bool) {
 		// memberlist orders a node's alive and dead notices by incarnation: once an observer has
 		// been told that a node is gone, an older "alive" for it is ignored
 		n.mu.Lock()
-		stale := n.leaveAt[dst.cfg.Name][p.Node.Name] > 0
-		if peer := n.nodes[p.Node.Name]; peer == nil || !peer.left {
-			stale = false
-		}
+		stale := dst.deadSeen[p.Node]
 		n.mu.Unlock()
 		if stale {
 			return
@@ -400,10 +440,7 @@ func (n *Network) Deliver(seq int, keep bool) {
 				// notifications reach the event delegate in the order of the state changes: if the
 				// observer has meanwhile been told that the node is gone, this "alive" is the older one
 				n.mu.Lock()
-				late := n.leaveAt[dst.cfg.Name][p.Node.Name] > 0
-				if peer := n.nodes[p.Node.Name]; peer == nil || !peer.left {
-					late = false
-				}
+				late := dst.deadSeen[p.Node]
 				n.mu.Unlock()
 				if late {
 					return
@@ -420,13 +457,31 @@ func (n *Network) Deliver(seq int, keep bool) {
 			})
 		}
 	case "leave":
+		// a notice about an incarnation that has been replaced since (the process was started
+		// again under its name) is void
 		n.mu.Lock()
+		if have, ok := dst.members[p.Node.Name]; ok && have != p.Node {
+			// the observer already holds a newer incarnation of that name
+			dst.deadSeen[p.Node] = true
+			n.mu.Unlock()
+			return
+		}
+		dst.deadSeen[p.Node] = true
 		delete(dst.members, p.Node.Name)
 		n.mu.Unlock()
 		if dst.cfg.Events != nil {
 			n.Spawn(name, func() {
 				simrt.Lock(-1, &dst.evMu)
 				defer simrt.Unlock(&dst.evMu)
+				n.mu.Lock()
+				replaced := false
+				if have, ok := dst.members[p.Node.Name]; ok && have != p.Node {
+					replaced = true // a newer incarnation joined at this observer in the meantime
+				}
+				n.mu.Unlock()
+				if replaced {
+					return
+				}
 				// sequence number taken when the notification starts: a merge whose write lands after
 				// the notification's delete necessarily completes after this point
 				n.note(&n.leaveAt, dst.cfg.Name, p.Node.Name)
